@@ -15,7 +15,7 @@ FOCUS_ACTIONS = {
     "deep": ["CreateOrg", "DeleteOrg", "CreateTeam", "DeleteTeam", "CreateRole", "DeleteRole", "CreateMPerm", "DeleteMPerm",
              "CreateToken", "UpdateToken", "DeleteToken", "AddTokenToTeam", "RemoveTokenFromTeam"],
 }
-INVS = ["UniqueKeys", "AuthIndexAgreement", "RestoreFidelityWhenClean", "RestoreShrinks", "RBACParentsExist", "BatchAllOrNothing"]
+INVS = ["UniqueKeys", "IndexAgreement", "RestoreFidelity", "RestoreShrinks", "RBACParentsExist", "BatchAllOrNothing"]
 
 
 def generate(ctx, focuses, sims, probes):
@@ -77,14 +77,17 @@ def generate(ctx, focuses, sims, probes):
                 out.write(json.dumps(t, separators=(",", ":")) + "\n")
                 n += 1
             r.traces = []
-    # invariants of the property that the model AS WRITTEN is expected to violate: TLC's shortest
-    # counterexample is evidence about the model only; the verdict comes from the replay below
+    # Probe_<inv>: invariants of the property that the model of the CURRENT code still violates (TLC's shortest
+    # counterexample is evidence about the model only; the verdict comes from the replay).
+    # NegCtl_<inv>: negative control -- the model of the code as first read (AsWritten = TRUE) must be rejected.
     pr = {}
-    for inv in probes:
-        r = ctx.tlc("clusterfsm", "ClusterFSM", "Probe_%s.cfg" % inv, allow_violation=True, timeout=900, workers=2)
-        pr[inv] = {"violated_in_model": bool(r.violated), "distinct": r.distinct,
+    for cfg in probes:
+        r = ctx.tlc("clusterfsm", "ClusterFSM", cfg + ".cfg", allow_violation=True, timeout=900, workers=2)
+        pr[cfg] = {"violated_in_model": bool(r.violated), "distinct": r.distinct,
                    "counterexample_states": sum(1 for l in r.counterexample if l.startswith("State "))}
-        ctx.log("probe %s: %s" % (inv, "counterexample in the as-written model" if r.violated else "holds in the model"))
+        if cfg.startswith("NegCtl_") and not r.violated:
+            raise InfraError("negative control %s: TLC accepted the as-first-written model" % cfg)
+        ctx.log("%s: %s" % (cfg, "counterexample in the model" if r.violated else "holds in the model"))
     ctx.note("tlc_runs", stats)
     ctx.note("tlc_property_probes", pr)
     return sp, n
